@@ -162,31 +162,40 @@ def run(chk):
     fh = mh.defs.get('calculate_volumetric_heating')
     if not isinstance(fh, ast.FunctionDef):
         raise AnalysisError('calculate_volumetric_heating vanished')
+    # (the syntactic in-place rules run first: a construct the interpreter cannot follow must not hide what they see)
+    from .common import inplace_lint
+    inplace_lint(chk, repo, 'R15.5', ['TidalPy/tides/multilayer/stress_strain.py', 'TidalPy/tides/heating.py', 'TidalPy/tides/multilayer/displacements.py'])
     S = Arr('stress', default=lambda k: X.atom(f'sig{k}', 'complex'), shape=(6,))
     E = Arr('strain', default=lambda k: X.atom(f'eps{k}', 'complex'), shape=(6,))
+    sig_ = [X.atom(f'sig{k}', 'complex') for k in range(6)]; eps_ = [X.atom(f'eps{k}', 'complex') for k in range(6)]      # the tensors as the caller handed them over
     vh = it.call(mh, fh, [S, E])
+    # the tensors handed in are the caller's (collapse_multilayer_modes returns them next to the heating): np.real / np.imag of an array are views of it, slices are views,
+    # so a store through any of them is a store into the caller's tensor
+    touched = sorted({str(k_) for k_, _v, _n in list(S.writes) + list(E.writes)})
+    chk.ob('R15.3', 'calculate_volumetric_heating leaves the stress and strain tensors it is given as they were (they are returned to the caller next to the heating)', not touched,
+           f'components written: {", ".join(touched[:8])}', mh.where(fh), key='R15.3|arguments intact', method='interpretation with arrays as mutable objects (component views and slices write through)')
     w = (1, 1, 1, 2, 2, 2)
     ref = X.ZERO
     for k in range(6):
-        ref = ref + w[k] * (X.fn('imag', S.get(k)) * X.fn('real', E.get(k)) - X.fn('real', S.get(k)) * X.fn('imag', E.get(k)))
+        ref = ref + w[k] * (X.fn('imag', sig_[k]) * X.fn('real', eps_[k]) - X.fn('real', sig_[k]) * X.fn('imag', eps_[k]))
     chk.ob('R15.3', 'volumetric heating is an absolute value (real, non-negative)', vh.op == 'fn' and vh.val == 'abs', f'outermost operation is {vh.op}:{vh.val}', mh.where(fh), method='structure of the extracted value')
     inner = vh.args[0] if vh.op == 'fn' and vh.val == 'abs' else vh
     eq('R15.3', 'heating argument == sum_k w_k (Im sig_k Re eps_k - Re sig_k Im eps_k), w = (1,1,1,2,2,2) == Im(sum_k w_k sig_k conj(eps_k))', inner, ref, mh.where(fh))
     ref2 = X.ZERO
     for k in range(6):
-        ref2 = ref2 + w[k] * S.get(k) * X.fn('conj', E.get(k))
+        ref2 = ref2 + w[k] * sig_[k] * X.fn('conj', eps_[k])
     eq('R15.3', 'heating argument == Im( sigma : conj(eps) ) (full double contraction with the symmetric off-diagonals counted twice)', inner, X.fn('imag', ref2), mh.where(fh))
     # elastic: real moduli, stresses from Hooke => zero
     mu_r = X.atom('mu_real', 'pos'); lam_r = X.atom('lambda_real')
-    trE = E.get(0) + E.get(1) + E.get(2)
-    sub = {f'sig{k}': 2 * mu_r * E.get(k) + (lam_r * trE if k < 3 else 0) for k in range(6)}
+    trE = eps_[0] + eps_[1] + eps_[2]
+    sub = {f'sig{k}': 2 * mu_r * eps_[k] + (lam_r * trE if k < 3 else 0) for k in range(6)}
     eq('R15.3', 'heating argument vanishes identically for real (elastic) moduli with sigma from the constitutive law', X.subst(inner, sub), X.ZERO, mh.where(fh))
     # and for complex moduli it equals Im(mu)*2*sum w_k |eps_k|^2 + Im(lambda)|tr|^2 (sign carried by the moduli)
     muc = X.atom('mu_c', 'complex'); lamc = X.atom('lam_c', 'complex')
-    subc = {f'sig{k}': 2 * muc * E.get(k) + (lamc * trE if k < 3 else 0) for k in range(6)}
+    subc = {f'sig{k}': 2 * muc * eps_[k] + (lamc * trE if k < 3 else 0) for k in range(6)}
     quad = X.ZERO
     for k in range(6):
-        quad = quad + w[k] * X.fn('abs2', E.get(k))
+        quad = quad + w[k] * X.fn('abs2', eps_[k])
     eq('R15.3', 'heating argument == 2 Im(mu) sum_k w_k |eps_k|^2 + Im(lambda) |tr eps|^2 for viscoelastic moduli', X.subst(inner, subc),
        2 * X.fn('imag', muc) * quad + X.fn('imag', lamc) * X.fn('abs2', trE), mh.where(fh))
 
@@ -195,8 +204,6 @@ def run(chk):
     fd = mdisp.defs.get('calculate_displacements')
     if isinstance(fd, ast.FunctionDef):
         disp_check(chk, it, mdisp, fd, d)
-    from .common import inplace_lint
-    inplace_lint(chk, repo, 'R15.5', ['TidalPy/tides/multilayer/stress_strain.py', 'TidalPy/tides/heating.py', 'TidalPy/tides/multilayer/displacements.py'])
     chk.floor('R15.5', 3)
     chk.floor('R15.1', 18); chk.floor('R15.2', 21); chk.floor('R15.3', 5); chk.floor('R15.4', 1)
     chk.assume('the potential satisfies U_tt + cot(t) U_t + U_pp/sin^2(t) = -l(l+1) U (C14 for the shipped degree-2 potentials); theta in (0, pi)')
